@@ -8,7 +8,7 @@
    composite indicators and whole operation programs: correspondence + falsifier. *)
 From Coq Require Import ZArith List String Bool.
 From Hexital Require Import Base.Prelude Base.Num Model.Manager Model.Candle Model.Readings Model.Engine
-  Proofs.AccessProofs Proofs.EngineProofs Proofs.MaintProofs Proofs.CompositeProofs Proofs.AtrCompose.
+  Proofs.AccessProofs Proofs.EngineProofs Proofs.MaintProofs Proofs.CompositeProofs Proofs.AtrCompose Proofs.DataSlot Proofs.DataInst Proofs.DataThms.
 Import ListNotations.
 
 Theorem C14_purge_exact :
@@ -90,3 +90,12 @@ Theorem C14_atr_calculate_idempotent :
   calculate O (top O (K_ATR period) name rnd) xs = Ok st -> calculate O (top O (K_ATR period) name rnd) st = Ok st.
 Proof. intros O period name rnd Hp Hn xs st HP HS H. eapply atr_calculate_idempotent; eassumption. Qed.
 Print Assumptions C14_atr_calculate_idempotent.
+
+(* indicators with one managed helper series (VWAP, StandardDeviation, RSI): calling calculate()
+   again changes nothing - neither the readings nor the helper's running state *)
+Theorem C14_data_series_calculate_idempotent :
+  forall (O : NumOps) (I : ind O) (key : string), data_node O I key -> data_kind O I key ->
+  forall (ds : list (cd (payload O))) (st : store O), Forall (fresh_data O I) ds ->
+  calculate O I ds = Ok st -> calculate O I st = Ok st.
+Proof. exact data_calculate_idempotent. Qed.
+Print Assumptions C14_data_series_calculate_idempotent.
